@@ -136,15 +136,26 @@ def compare_before_store(ctx):
         raise roles.AnchorMissing('store of pobj.value in the funnel not found')
     # names whose definition depends on the previous readerror and on the old value
     dep_err, dep_val = set(), set()
+    # (target name, value expression, statement) - tuple assignments element by element
+    bindings = []
     for node in body_walk(f.node):
-        if isinstance(node, ast.Assign) and len(node.targets) == 1 and isinstance(node.targets[0], ast.Name):
-            name = node.targets[0].id
-            s = src(node.value, 400)
+        if isinstance(node, ast.Assign) and len(node.targets) == 1:
+            tg = node.targets[0]
+            if isinstance(tg, ast.Name):
+                bindings.append((tg.id, node.value, node))
+            elif isinstance(tg, ast.Tuple) and isinstance(node.value, ast.Tuple) and len(tg.elts) == len(node.value.elts):
+                bindings += [(e.id, v, node) for e, v in zip(tg.elts, node.value.elts) if isinstance(e, ast.Name)]
+    for _ in range(3):      # closure: `cached_error = pobj.readerror; changed = ... or cached_error`
+        for name, value, node in bindings:
+            s = src(value, 400)
             guards = ' '.join(src(a.test, 400) for a in ancestors(node) if isinstance(a, ast.If))
-            if '.readerror' in s or '.readerror' in guards:
+            if '.readerror' in s or '.readerror' in guards or names_in(value) & dep_err:
                 dep_err.add(name)
-            if '.value' in s:
+            if '.value' in s or names_in(value) & dep_val:
                 dep_val.add(name)
+    for name, value, node in bindings:
+            s = src(value, 400)
+            if '.value' in s:
                 # R3a: this read of the old value must precede the store
                 for vs in value_stores:
                     a_ids = cfg.node_of(node)
@@ -324,6 +335,12 @@ def callback_guard_handler_is_total(ctx):
     n = 0
     for loop in [x for x in body_walk(f.node) if isinstance(x, ast.For) and 'paramCallbacks' in src(x.iter)]:
         names = {x.id for x in ast.walk(loop.target) if isinstance(x, ast.Name)}
+        # `with suppress(Exception): cbfunc(...)` is a guard that can not raise itself
+        for w in [x for x in walk_local(loop) if isinstance(x, ast.With)]:
+            if any(isinstance(it.context_expr, ast.Call) and (dotted(it.context_expr.func) or '').rpartition('.')[2] == 'suppress' and
+                   any(src(a) in ('Exception', 'BaseException') for a in it.context_expr.args) for it in w.items):
+                n += 1
+                ctx.ok(f'{f.qualname}:callback guard handler is total', w, 'contextlib.suppress(Exception)', f)
         for t in [x for x in walk_local(loop) if isinstance(x, ast.Try)]:
             for h in t.handlers:
                 n += 1
